@@ -138,6 +138,22 @@ def rx_fanout(t):
     return f * max([rx_fanout(x) for x in t[1:] if isinstance(x, list) and x and isinstance(x[0], str)] or [1])
 
 
+def rx_expanded_len(t):
+    """length of the shortest sentence"""
+    k = t[0]
+    if k in ("eps", "star", "opt"):
+        return 0
+    if k in ("lit", "dot", "cls", "ncls"):
+        return 1
+    if k == "alt":
+        return min(rx_expanded_len(t[1]), rx_expanded_len(t[2]))
+    if k == "cat":
+        return rx_expanded_len(t[1]) + rx_expanded_len(t[2])
+    if k == "plus":
+        return rx_expanded_len(t[1])
+    return t[1] * rx_expanded_len(t[3])
+
+
 def utf8(cp):
     return list(chr(cp).encode("utf-8", "surrogatepass"))
 
@@ -359,7 +375,8 @@ class C11(Suite):
             "expressions; the same for expressions naming one multi-byte symbol (é: 2 bytes, €: 3 bytes) over "
             "texts {a,b,that symbol} (texts using the other multi-byte character lie outside the byte-machine "
             "hypothesis: compared with the model only); expressions naming two multi-byte symbols (refusal); 16 "
-            "hand-written shapes; listed probes; seeded random larger expressions with sentences cut / extended "
+            "hand-written shapes; 5 long bounded repetitions (fsm of more than 256 states, dead state last or "
+            "second) on inputs around the sentence length; listed probes; seeded random larger expressions with sentences cut / extended "
             "/ spoilt, raw non-UTF-8 bytes for ASCII expressions, empty chunks.  One rx.lang case per expression "
             "validates greenery's fsm against the expression tree (exactly, by a checked bisimulation "
             "certificate, in the exhaustive scopes; on all strings up to a bound for the random ones); rx.spec "
@@ -543,6 +560,21 @@ class C11(Suite):
                     c = self.pair_cases(tree, [b for ch in t for b in utf8(ch)], k, text=t)
                     c["t"] = t
                     yield c
+        # ---- 2c. long bounded repetitions: an fsm of more than 256 states (state indices beyond CPython's cache
+        #          of small ints, where identity and equality of indices part), with the dead state numbered
+        #          last (found only after all live states) or second (found from the initial state); inputs
+        #          around the length of the only sentence.  Nested repetitions are what greenery builds fast.
+        for tree in self.long_shapes():
+            n = rx_expanded_len(tree)
+            for length in (n - 1, n, n + 1, n + 2):
+                for fill in (ord("x"), A):
+                    w = [fill] * length
+                    for kind, mode in (("regex", "whole"), ("regex_bytes", "split"), ("string_bytes", "whole")):
+                        k += 1
+                        c = self.pair_cases(tree, w, k)
+                        c.update({"kind": kind, "chunks": mode, "k": 3, "term": 1, "greedy": 1})
+                        yield c
+                    yield {"op": "spec", "rx": tree, "w": w}
         # ---- 2b. hand-written shapes beyond the size bound (the repo's own test expressions, and states the
         #          small scope cannot produce: a non-initial non-final state whose named symbols all loop while
         #          anything-else leaves; nested groups; digits), each with its sentences cut, extended and spoilt
@@ -588,6 +620,16 @@ class C11(Suite):
             t = [rng.choice([0, 0x41, 0x7F, 0x80, 0xE9, 0x7FF, 0x800, 0x20AC, 0xFFFF, 0x10000, 0x10FFFF,
                              rng.randint(0, 0xD7FF), rng.randint(0xE000, 0x10FFFF)]) for _ in range(rng.randint(0, 5))]
             yield {"op": "utf8", "t": t}
+
+    @staticmethod
+    def long_shapes():
+        def power(leaf, m, n):
+            return ["rep", n, n, ["rep", m, m, leaf]]
+        return [power(["dot"], 16, 16),                       # .{256}: 258 states, dead state 257
+                power(["dot"], 17, 15),                       # .{255}: 257 states, dead state 256
+                ["cat", power(["dot"], 16, 16), ["dot"]],     # .{257}
+                power(["ncls", [A]], 16, 16),                 # [^a]{256}: dead state 1, live states up to 257
+                ["cat", power(["dot"], 16, 16), ["opt", ["lit", A]]]]   # .{256}a?
 
     @staticmethod
     def shapes():
